@@ -544,6 +544,14 @@ def transparency_case(shape, api, scoped, predict):
     if kind == 'function' and sig is not None and shape not in ('builtin', 'callable-object') and api == 'configurable':
       if str(inspect.signature(ret)) != sig:
         fails.append(('keepsMetadata', 'signature %s != %s' % (inspect.signature(ret), sig)))
+    if shape == 'builtin' and sig is not None:
+      # a builtin is wrapped by a shim; its introspectable signature still is the builtin's
+      try:
+        got_sig = str(inspect.signature(wrapper))
+      except (TypeError, ValueError) as e:
+        got_sig = 'RAISED %s' % type(e).__name__
+      if got_sig != sig:
+        fails.append(('keepsMetadata', 'signature of the configurable builtin %s != %s' % (got_sig, sig)))
     if kind != 'function' and not (inspect.isclass(wrapper) and issubclass(wrapper, obj)):
       fails.append(('wrapperIsSubclass', '%r' % (wrapper,)))
   finally:
